@@ -8,7 +8,7 @@ from . import celx
 from .core import Ctx, read_dump, write_ndjson, trace_verdict, pmap
 
 FAMILIES = ["int", "uint", "double", "string", "bytes", "bool", "timestamp", "duration", "list_int", "list_nest",
-            "list_str", "map", "map_nest", "map_intkey"]
+            "list_str", "map", "map_nest", "map_intkey", "map_null", "list_null", "list_mapnull"]
 INV = """INVARIANT Reflexive
 INVARIANT Symmetric
 INVARIANT NeIsNegation
@@ -21,7 +21,7 @@ INVARIANT Congruence
 INVARIANT Definite
 CHECK_DEADLOCK FALSE
 """
-OFFSETS = [0, 330, -480, 840, -720, 60]
+OFFSETS = [0, 330, -480, 840, -720, 60, -210, -30, 345, -570]       # minutes; negative offsets with and without a minutes part
 
 
 def ts_text(us, k):
